@@ -68,7 +68,7 @@ both_families! { [c05, c10]
 		Some(vec![p.scheme.map(|s| s.as_str().to_string()), p.authority.map(|s| s.as_str().to_string()), Some(p.path.as_str().to_string()), p.query.map(|s| s.as_str().to_string()), p.fragment.map(|s| s.as_str().to_string())])
 	}
 
-	pub fn cmp_all(a: &str, b: &str) -> Option<(bool, std::cmp::Ordering, (u64, u64), Option<(bool, std::cmp::Ordering, (u64, u64))>)> {
+	pub fn cmp_all(a: &str, b: &str) -> Option<(bool, std::cmp::Ordering, (u64, u64, u64), Option<(bool, std::cmp::Ordering, (u64, u64, u64))>)> {
 		let x = RiRef::new(a).ok()?;
 		let y = RiRef::new(b).ok()?;
 		let base = (x == y, x.cmp(y), crate::props::c08::h2(x));
@@ -248,6 +248,13 @@ fn differential(case: &Case, cx: &mut Ctx) -> Result<(), Failure> {
 		ensure!(cu == ci, "families-differ:comparison", "{:?} vs {:?}: URI family (==, cmp, hash, full-type) = {:?}, IRI family = {:?}", a, b, cu, ci);
 		cx.obs(3);
 		cx.class("differential:comparison");
+		// the same against prefix VIEWS of a's own buffer (values sharing a start address)
+		for k in gen::valid_prefix_cuts(a.as_str(), 4, |p| iref::UriRef::new(p).is_ok()) {
+			let cu = guard(|| u::cmp_all(a, &a[..k])).ok().flatten();
+			let ci = guard(|| i::cmp_all(a, &a[..k])).ok().flatten();
+			ensure!(cu == ci, "families-differ:comparison-aliased", "{:?} vs the view {:?} of its own buffer: URI family (==, cmp, hash, full-type) = {:?}, IRI family = {:?}", a, &a[..k], cu, ci);
+			cx.obs(3);
+		}
 		// hashes across the two families of one text
 		let hu = h2(iref::UriRef::new(a.as_str()).unwrap());
 		let hi = h2(iref::IriRef::new(a.as_str()).unwrap());
@@ -310,6 +317,25 @@ impl Prop for C13 {
 			return Ok(());
 		}
 		conversions(&case.text, cx)?;
+		// the same conversions with the text living at an odd offset of a larger buffer, and in a re-used buffer
+		gen::with_misaligned(&case.text, |s, k| conversions(s, cx).map_err(|f| Failure::new(format!("misaligned:{}", f.sig), format!("(input at byte offset {k} of a larger buffer) {}", f.msg))))?;
+		gen::with_arena(&case.text, |s| conversions(s, cx).map_err(|f| Failure::new(format!("reused-buffer:{}", f.sig), format!("(input in a re-used buffer) {}", f.msg))))?;
+		// one non-ASCII scalar near the start or the end of otherwise ASCII text, at every alignment
+		// (word-at-a-time "is it ASCII" scans have an unaligned head and tail)
+		if case.text.is_ascii() && case.text.len() >= 8 && case.text.len() % 8 == 0 {
+			let n = case.text.len();
+			for p in (0..8).chain(n.saturating_sub(8)..n) {
+				let v = format!("{}\u{e9}{}", &case.text[..p], &case.text[p..]);
+				if iref::IriRef::new(v.as_str()).is_err() {
+					continue;
+				}
+				for k in 0..8usize {
+					let padded = format!("{}{}{}", &"~~~~~~~~"[..k], v, "~~~");
+					conversions(&padded[k..k + v.len()], cx).map_err(|f| Failure::new(format!("one-non-ascii:{}", f.sig), format!("(one non-ASCII scalar at char {p}, text at byte offset {k} of a larger buffer) {}", f.msg)))?;
+				}
+				cx.class("one-non-ascii-scalar-at-every-alignment");
+			}
+		}
 		differential(case, cx)?;
 		cx.class("judged");
 		let fails = !abnf::accepts_str(Ty::UriRef, &case.text) || split(&case.text).scheme.is_none();
